@@ -615,15 +615,170 @@ func c20NestedCase(r *vu.RNG, emit func(string)) {
 	}
 }
 
+// more than 32 voters: voter positions * 2 (+1) reach the second 64-bit word of the vote-node and
+// equivocation bitfields (bitfield.go Merge / Iter1sMerged* over words of different lengths)
+func c20ManyVoters(r *vu.RNG, emit func(string)) {
+	k := 2 + r.Intn(6)
+	parents := c20Tree(r, k)
+	nv := 33 + r.Intn(8)
+	ws := make([]uint64, nv)
+	for i := range ws {
+		ws[i] = 1
+		if r.Chance(1, 4) {
+			ws[i] = uint64(1 + r.Intn(3))
+		}
+	}
+	focus := r.Intn(k)
+	below := c20Below(parents, focus)
+	var ops []string
+	for _, ph := range []byte{'p', 'c'} {
+		order := c20Perm(r, nv)
+		for _, v := range order {
+			if r.Chance(1, 12) {
+				continue
+			}
+			b := below[r.Intn(len(below))]
+			if r.Chance(1, 5) {
+				b = r.Intn(k)
+			}
+			ops = append(ops, fmt.Sprintf("%c%x.%x.0", ph, v, b))
+			if r.Chance(1, 9) { // equivocation (or the same vote with another signature)
+				ops = append(ops, fmt.Sprintf("%c%x.%x.1", ph, v, r.Intn(k)))
+			}
+		}
+	}
+	if r.Chance(1, 2) { // interleave the two phases
+		for i := len(ops) - 1; i > 0; i-- {
+			j := r.Intn(i + 1)
+			ops[i], ops[j] = ops[j], ops[i]
+		}
+	}
+	emit(c20Case(parents, c20Perm(r, k), ws, strings.Join(ops, ",")))
+}
+
+// more than 32 voters voting on the LEAVES of a nested fork structure only: the ghost is then a
+// fork point that is not a vote-graph node and FindGHOST has to merge (bitfield.Merge over two
+// words) the cumulative votes of several descendants (ghostFindMergePoint, introduceBranch)
+func c20ManyVotersForks(r *vu.RNG, emit func(string)) {
+	var parents []uint64
+	add := func(p int) int { parents = append(parents, uint64(p)); return len(parents) }
+	chain := func(from, n int) int {
+		for i := 0; i < n; i++ {
+			from = add(from)
+		}
+		return from
+	}
+	b := chain(0, 1+r.Intn(2))
+	p1 := chain(b, 1+r.Intn(2))
+	leaves := []int{chain(p1, 1+r.Intn(2)), chain(p1, 1+r.Intn(2))}
+	if r.Chance(1, 2) {
+		leaves = append(leaves, chain(p1, 1))
+	}
+	p2 := chain(b, 1+r.Intn(2))
+	leaves = append(leaves, p2)
+	if r.Chance(1, 2) {
+		leaves = append(leaves, chain(p2, 1))
+	}
+	nmain := len(leaves)
+	for i, ns := 0, 1+r.Intn(2); i < ns; i++ {
+		leaves = append(leaves, chain(chain(0, 1), 1+r.Intn(2)))
+	}
+	k := len(parents) + 1
+	nv := 33 + r.Intn(8)
+	ws := make([]uint64, nv)
+	for i := range ws {
+		ws[i] = 1
+	}
+	var ops []string
+	for _, ph := range []byte{'p', 'c'} {
+		for _, v := range c20Perm(r, nv) {
+			if r.Chance(1, 15) {
+				continue
+			}
+			l := leaves[r.Intn(nmain)] // mostly below b
+			if r.Chance(1, 6) {
+				l = leaves[r.Intn(len(leaves))]
+			}
+			ops = append(ops, fmt.Sprintf("%c%x.%x.0", ph, v, l))
+			if r.Chance(1, 14) {
+				ops = append(ops, fmt.Sprintf("%c%x.%x.0", ph, v, leaves[r.Intn(len(leaves))]))
+			}
+		}
+	}
+	if r.Chance(1, 3) {
+		for i := len(ops) - 1; i > 0; i-- {
+			j := r.Intn(i + 1)
+			ops[i], ops[j] = ops[j], ops[i]
+		}
+	}
+	emit(c20Case(parents, c20Perm(r, k), ws, strings.Join(ops, ",")))
+}
+
+// tolerant prevotes, precommit equivocators above the tolerance: possibleToPrecommit computes
+// toleratedEquivocations - currentEquivocations on uint64 (the domain of C20.Model.possible_go)
+func c20PcIntolerant(r *vu.RNG, emit func(string)) {
+	k := 2 + r.Intn(7)
+	parents := c20Tree(r, k)
+	nv := 4 + r.Intn(4)
+	ws := c20Weights(r, nv)
+	focus := r.Intn(k)
+	below := c20Below(parents, focus)
+	var pv, pc []string
+	for v := 0; v < nv; v++ {
+		if r.Chance(9, 10) {
+			pv = append(pv, fmt.Sprintf("p%x.%x.0", v, below[r.Intn(len(below))]))
+		}
+	}
+	neq := (nv-1)/3 + 1 + r.Intn(2)
+	order := c20Perm(r, nv)
+	for i, v := range order {
+		b := below[r.Intn(len(below))]
+		if r.Chance(1, 3) {
+			b = r.Intn(k)
+		}
+		pc = append(pc, fmt.Sprintf("c%x.%x.0", v, b))
+		if i < neq {
+			b2 := r.Intn(k)
+			sg := 0
+			if b2 == b {
+				sg = 1
+			}
+			pc = append(pc, fmt.Sprintf("c%x.%x.%x", v, b2, sg))
+		}
+	}
+	for i := len(pc) - 1; i > 0; i-- {
+		j := r.Intn(i + 1)
+		pc[i], pc[j] = pc[j], pc[i]
+	}
+	ops := append(pv, pc...)
+	if r.Chance(1, 3) {
+		for i := len(ops) - 1; i > 0; i-- {
+			j := r.Intn(i + 1)
+			ops[i], ops[j] = ops[j], ops[i]
+		}
+	}
+	emit(c20Case(parents, c20Perm(r, k), ws, strings.Join(ops, ",")))
+}
+
 func c20Gen(r *vu.RNG, n int, emit func(string)) {
 	for i := 0; i < n/8; i++ { // 3 histories each
 		c20NestedCase(r.Fork(), emit)
+	}
+	for i := 0; i < n/25; i++ {
+		if i%2 == 0 {
+			c20ManyVoters(r.Fork(), emit)
+		} else {
+			c20ManyVotersForks(r.Fork(), emit)
+		}
+	}
+	for i := 0; i < n/12; i++ {
+		c20PcIntolerant(r.Fork(), emit)
 	}
 	if vu.Thorough() {
 		c20AllOrders(emit)
 		c20Exhaustive(r.Fork(), 600000, emit)
 	}
-	for i := 0; i < n-3*(n/8); i++ {
+	for i := 0; i < n-3*(n/8)-n/25-n/12; i++ {
 		k := 1 + r.Intn(8)
 		if r.Chance(1, 10) {
 			k = 1 + r.Intn(12)
